@@ -138,6 +138,8 @@ fn check_word(input: &(u16, u16), case: &mut Case) -> Result<(), Fail> {
     let out = lib("build_bytes_vec", || p.build_bytes_vec())?;
     let out = out.map_err(|e| Fail::new("c08:rebuild-failed", format!("{:?}", e)))?;
     ensure!(out.len() == 12, "c08:rebuild-len", "bare header re-serialised to {} bytes", out.len());
+    let outc = lib("build_bytes_vec_compressed", || p.build_bytes_vec_compressed())?.map_err(|e| Fail::new("c08:rebuild-failed", format!("{:?}", e)))?;
+    ensure!(outc == out, "c08:rebuild-compressed", "compressed re-serialisation {} differs from plain {}", hex(&outc), hex(&out));
     ensure!(out[0..2] == buf[0..2] && out[4..12] == buf[4..12], "c08:rebuild-id-counts", "id/counts changed: {}", hex(&out));
     let w2 = u16::from_be_bytes([out[2], out[3]]);
     let fb = FLAG_BITS | Z;
@@ -244,6 +246,12 @@ fn check_build(input: &(u8, u16, u8), case: &mut Case) -> Result<(), Fail> {
     ensure!(w == want, "c08:build-word", "opcode {} rcode {} flags {:#06x}: word {:#06x}, expected {:#06x}", op, rc, flags, w, want);
     let arcount = u16::from_be_bytes([out[10], out[11]]);
     ensure!(out[4..10] == [0; 6] && arcount == (rc > 15) as u16, "c08:build-counts", "counts wrong: {}", hex(&out[..12]));
+    // every serialisation entry point writes the same header
+    let outc = lib("build_bytes_vec_compressed", || p.build_bytes_vec_compressed())?.map_err(|e| Fail::new("c08:build-failed", format!("{:?}", e)))?;
+    ensure!(outc.len() >= 12 && outc[..12] == out[..12], "c08:build-header-compressed", "compressed writer header {} differs from plain {}", hex(&outc[..outc.len().min(12)]), hex(&out[..12]));
+    let mut cur = std::io::Cursor::new(Vec::new());
+    lib("write_to", || p.write_to(&mut cur))?.map_err(|e| Fail::new("c08:build-failed", format!("{:?}", e)))?;
+    ensure!(cur.get_ref()[..] == out[..], "c08:build-header-writer", "write_to differs from build_bytes_vec");
     // parse back
     let back = parse(&out)?.map_err(|e| Fail::new("c08:build-unparseable", format!("{:?}", e)))?;
     let o = observe(&back);
@@ -310,10 +318,74 @@ fn check_modify(input: &(u16, u8, u16, u8), case: &mut Case) -> Result<(), Fail>
     Ok(())
 }
 
+/// every Z-clear word followed by an OPT pseudo-record: the header fields are still reported
+/// exactly, the response code is (ext << 4) | low nibble, and the counts are written back by all writers
+fn enum_with_opt(_t: Tier, shard: usize, n: usize, f: &mut dyn FnMut((u16, u8, u8)) -> bool) {
+    let mut i = 0usize;
+    for word in 0..=65535u16 {
+        if word & Z != 0 {
+            continue;
+        }
+        i += 1;
+        if !mine(i, shard, n) {
+            continue;
+        }
+        for version in [0u8, 1, 0x0f, 0x10, 0x80, 0xff] {
+            for ext in [0u8, 1] {
+                if !f((word, version, ext)) {
+                    return;
+                }
+            }
+        }
+    }
+}
+
+fn check_with_opt(input: &(u16, u8, u8), case: &mut Case) -> Result<(), Fail> {
+    let (word, version, ext) = *input;
+    case.nontrivial = version != 0 || ext != 0;
+    let mut m = vec![0xab, 0xcd];
+    m.extend_from_slice(&word.to_be_bytes());
+    m.extend_from_slice(&[0, 0, 0, 0, 0, 0, 0, 1]);
+    // root owner, TYPE 41, CLASS 1232, TTL = ext, version, 0, 0, RDLENGTH 0
+    m.extend_from_slice(&[0, 0, 41, 0x04, 0xd0, ext, version, 0, 0, 0, 0]);
+    let p = parse(&m)?.map_err(|e| Fail::new("c08:valid-header-rejected", format!("word {:#06x} with OPT: {:?}", word, e)))?;
+    ensure!(p.id() == 0xabcd, "c08:parse-id", "id {:#06x}", p.id());
+    for (b, fl) in FLAG_TABLE {
+        ensure!(p.has_flags(fl) == (word & b != 0), "c08:parse-flag", "flag {:#06x} wrong on word {:#06x} with OPT", b, word);
+    }
+    ensure!(opcode_code(p.opcode()) == named_opcode(opcode_bits(word)), "c08:parse-opcode", "opcode {:?} on word {:#06x} with OPT", p.opcode(), word);
+    let full = ((ext as u16) << 4) | (word & 15);
+    ensure!(
+        rcode_code(p.rcode()) == named_rcode(full),
+        "c08:parse-rcode-opt",
+        "word {:#06x} (low nibble {}) with OPT ext-rcode {} version {}: rcode() = {:?}, expected the code {}",
+        word,
+        word & 15,
+        ext,
+        version,
+        p.rcode(),
+        full
+    );
+    let opt = p.opt().ok_or_else(|| Fail::new("c08:opt-missing", "opt() is None"))?;
+    ensure!(opt.version == version && opt.udp_packet_size == 1232, "c08:opt-fields", "version {} udp {}", opt.version, opt.udp_packet_size);
+    // counts written back by every writer
+    for compressed in [false, true] {
+        let out = if compressed { lib("build_bytes_vec_compressed", || p.build_bytes_vec_compressed())? } else { lib("build_bytes_vec", || p.build_bytes_vec())? };
+        let out = out.map_err(|e| Fail::new("c08:rebuild-failed", format!("{:?}", e)))?;
+        ensure!(out.len() >= 12 && out[4..12] == [0, 0, 0, 0, 0, 0, 0, 1], "c08:rebuild-counts-opt", "compressed={}: counts {} for a message with one OPT record", compressed, hex(&out[4..out.len().min(12)]));
+        let w2 = u16::from_be_bytes([out[2], out[3]]);
+        ensure!(w2 & (FLAG_BITS | Z) == word & (FLAG_BITS | Z), "c08:rebuild-flags", "flag bits {:#06x} became {:#06x}", word, w2);
+        if NAMED_OPCODES.contains(&opcode_bits(word)) && NAMED_RCODES.contains(&full) {
+            ensure!(w2 == word, "c08:rebuild-word", "word {:#06x} became {:#06x} (OPT present)", word, w2);
+        }
+    }
+    Ok(())
+}
+
 pub fn def() -> CheckDef {
     CheckDef {
         id: "C08",
-        rule: "exhaustive enumeration: all 65536 flag words x 5 ids through peek/parse/re-serialise; all 128x128 flag-set pairs x 2 constructors x 128 probes; 5 named opcodes x 12 named rcodes x 128 flag subsets on the build side; all 32768 Z-clear received words x 60 (opcode, rcode) pairs assigned after parsing (with flag sets brought to a target by set/remove) and re-serialised. Every case is distinct by construction; non-trivial = word != 0 / both sets non-empty / every build case",
+        rule: "exhaustive enumeration: all 65536 flag words x 5 ids through peek/parse/re-serialise; all 128x128 flag-set pairs x 2 constructors x 128 probes; 5 named opcodes x 12 named rcodes x 128 flag subsets on the build side; all 32768 Z-clear words followed by an OPT record (6 versions x 2 extended rcodes); all 32768 Z-clear received words x 60 (opcode, rcode) pairs assigned after parsing (with flag sets brought to a target by set/remove) and re-serialised. Every case is distinct by construction; non-trivial = word != 0 / both sets non-empty / every build case",
         assumptions: vec!["bit layout transcribed from RFC 1035 section 4.1.1 (+ AD/CD from RFC 2535) in checks/c08.rs"],
         sections: vec![
             Box::new(EnumSection {
@@ -328,6 +400,13 @@ pub fn def() -> CheckDef {
                 rule: "all 128x128 (a,b) flag-set pairs",
                 enumerate: enum_algebra,
                 check: check_algebra,
+                exhaustive: true,
+            }),
+            Box::new(EnumSection {
+                name: "words-with-opt",
+                rule: "all Z-clear words x 6 EDNS versions x 2 extended rcodes",
+                enumerate: enum_with_opt,
+                check: check_with_opt,
                 exhaustive: true,
             }),
             Box::new(EnumSection {
